@@ -290,7 +290,7 @@ def damage_cases(rng, n):
 class C03(Base):
     ID = "C03"
     AREA = "parse"
-    LEMMA_FILES = ["FluentProofs/ParserLoops.lean", "FluentProofs/ParserLines.lean", "FluentProofs/ParserBasics.lean", "FluentProofs/ParserHoareEntry.lean"]
+    LEMMA_FILES = ["FluentProofs/ParserLoops.lean", "FluentProofs/ParserLines.lean", "FluentProofs/ParserBasics.lean", "FluentProofs/ParserHoareEntry.lean", "FluentProofs/ConstTieSyntax.lean"]
     RULE = ("the C01 generator mix (accounting clauses and the admission predicate recomputed on every output of both "
             "parsers) plus the damage generator: random well-formed resource x entry index x 23 violation kinds (the "
             "documented ones) x 7 placements (first line, continuation line, nested placeable, call argument, variant "
